@@ -160,6 +160,12 @@ def impl_load(lp, f, stream, sl, chans):
     out['M'] = [[float(v) for v in fs.frames[i]] for i in range(fs.numFrames)]
     out['X'] = None if fs._indrXVector is None else [float(v) for v in fs._indrXVector]
     out['Xapi'] = [float(fs.xAxisValue(i)) for i in range(fs.numFrames)]
+    # per (sample, burst) access of the first and last loaded frame: {(row, ch): [[value per burst] per sample]}
+    cells = {}
+    for i in sorted({0, fs.numFrames - 1}) if fs.numFrames else []:
+        for c in out['ch']:
+            cells[(i, c)] = [[float(fs.value(i, c, 0, sa, bu)) for bu in range(fs.numBursts(c, 0))] for sa in range(fs.numSamples(c, 0))]
+    out['cells'] = cells
     return out
 
 
@@ -310,6 +316,15 @@ def oracle_load(ctx, RepCode, bf, pi, sl, chans, res, case, prior_bad_ctor=False
                 k = next((k for k, (a, b) in enumerate(zip(got, want)) if a.hex() != b.hex()), min(len(got), len(want)))
                 bad = 'frame %d (loaded row %d) value %d: got %s, recorded %s' % (fr, i, k, got[k:k + 1], want[k:k + 1])
                 break
+    if not bad:
+        for (i, c), got in res['cells'].items():
+            size, samples, rc = lp.chans[c]
+            bursts = size // (RC_SIZE[rc] * samples)
+            ws = lp.words[frames[i]][c]
+            want = [[float(RepCode.readBytes(rc, ws[sa * bursts + bu].to_bytes(RC_SIZE[rc], 'big'))) for bu in range(bursts)] for sa in range(samples)]
+            if [[v.hex() for v in r] for r in got] != [[v.hex() for v in r] for r in want]:
+                bad = 'frame %d channel %d per (sample, burst) values %s, recorded %s' % (frames[i], c, got, want)
+                break
     if bad:
         return ctx.fail(case, bad)
     # X axis of every loaded frame
@@ -371,10 +386,11 @@ def oracle_index(ctx, bf, idx, case):
         if isinstance(w[2], tuple):
             _, rc, word = w[2]
             # numeric names were generated from integers
-            if rc == 68:
-                ok = any(lislog.enc68_int(int(g[2])) == word for _ in [0]) if float(g[2]) == int(g[2]) and abs(g[2]) < 2**23 else False
-            else:
-                ok = float(g[2]) == int(g[2]) and lislog.enc_int(rc, int(g[2])) == word
+            try:
+                v = g[2]
+                ok = (not isinstance(v, (bytes, bytearray))) and float(v) == int(v) and lislog.enc_int(rc, int(v)) == word
+            except Exception:  # noqa
+                ok = False
             if not ok:
                 return ctx.fail(case, 'table at %d first value %r does not decode the recorded word %d (rc %d)' % (g[0], g[2], word, rc))
     lps = list(idx.genLogPasses())
@@ -395,7 +411,10 @@ def oracle_index(ctx, bf, idx, case):
         seeks = []
         nfr = lp.total if 0 not in lp.fpr else lp.rec_first[lp.fpr.index(0)]      # F22: frames behind a zero-frame record
         for fr in range(nfr):
-            seeks.append(L.rle.tellLrForFrame(fr))
+            try:
+                seeks.append(L.rle.tellLrForFrame(fr))
+            except Exception as ex:  # noqa
+                return ctx.fail(case, 'frame %d of the log pass at %d cannot be located: %s' % (fr, e.tell, err_name(ex)))
         want_seeks = [(bf.tells[p['data_lrs'][lp.record_of(fr)[0]]], lp.record_of(fr)[1]) for fr in range(nfr)]
         if seeks != want_seeks:
             k = next(k for k, (a, b) in enumerate(zip(seeks, want_seeks)) if a != b)
@@ -639,7 +658,9 @@ def search(ctx):
 
 def replay(ctx, rec):
     logging.disable(logging.CRITICAL)
-    case = rec['case']
+    case = rec.get('case')
+    if not case:
+        return True, 'nothing to replay (no concrete failing input was recorded)'
     mods = _mods()
     n0 = len(ctx.failures)
     if case.get('op') == 'plan':
